@@ -870,4 +870,5 @@ SELFTESTS = [
     (rule_failures_propagate, ["c09_bad.c"], ["c09_good.c"], "exitval"),
     (rule_extension_needs_byte, ["c09_bad.c"], ["c09_good.c"], "handle_ext"),
     (rule_eof_before_use, ["c09_bad.c"], ["c09_good.c"], "c:width"),
+    (rule_every_file_decoded, ["c09_files_bad.c"], ["c09_files_good.c"], "all_files"),
 ]
